@@ -32,7 +32,7 @@ CLAIMED = {
    note="Trusted: TLC, Wire.tla/MessageSet.tla. Deflate is outside the specification (wrappers are compressed by Python's gzip); snappy is not installed.",
    technique="TLA+ specification of the wire grammar and of message-set offset rules evaluated by TLC as test-vector generator; implementation decoders compared with the abstract values"),
  "C12": dict(
-   text="CRC32.tla is the checksum oracle: every single-bit flip, bursts of width 2-12 (all or sampled interiors), wide random bursts and, for 32-bit windows, the 32 bursts whose CRC syndrome is a single checksum bit (solved over GF(2)) are applied to the checksummed bytes of messages from the TLC vectors, the real decoder's outcome is recorded and TLC (CrcJudge.tla) decides for each whether a checksum error was mandatory; every truncation point of every vector message set is decoded and compared with the count of complete entries MessageSet.tla computes; every length/count field of every response vector and every entry size is replaced by hostile values and decoding must terminate within time/memory linear in the input.",
+   text="CRC32.tla is the checksum oracle: every single-bit flip, bursts of width 2-12 (all or sampled interiors), wide random bursts and, for 32-bit windows, the 32 bursts whose CRC syndrome is a single checksum bit (solved over GF(2)) are applied to the checksummed bytes of messages from the TLC vectors - at top level and, for a sample, as an inner message of a gzip wrapper whose own checksum is valid -, the real decoder's outcome is recorded and TLC (CrcJudge.tla) decides for each whether a checksum error was mandatory; every truncation point of every vector message set is decoded and compared with the count of complete entries MessageSet.tla computes; every length/count field of every response vector and every entry size is replaced by hostile values and decoding must terminate within time/memory linear in the input.",
    ref="DESIGN.md 6.9, 7 (C12), 8",
    note="Trusted: TLC, CRC32.tla (pinned to the standard check value). The third sentence is covered only for the grammar-derived hostile-length family, not for arbitrary byte strings; the resource bound is measured by the harness, not by the model. Buffer enlargement by the consumer is decided by the consumer-family check (called from here once built).",
    technique="TLA+ CRC-32 and message-set specification: TLC judges recorded decoder outcomes of mutated messages (trace validation) and computes truncation oracles; hostile-length vectors derived from the specification's field segmentation"),
@@ -81,7 +81,7 @@ CLAIMED = {
    ref="DESIGN.md 6.6, 7 (C14)",
    note="Delays and sizes are compared exactly against tables computed by the harness from the documented rule, not from the implementation. 'Otherwise retrying continues indefinitely' is additionally a temporal property on the design (Consumer_Live.tla: once faults cease the consumer catches up with the log)."),
  "C16": dict(
-   text="Group.tla models one group member (afkak's Coordinator / ConsumerGroup): coordinator lookup, topic metadata load, graceful shutdown of the previous generation's consumers, join, the leader's partition lookup, sync, start of the assigned consumers with generation and member id, heartbeat looper, delayed rejoins, the error table of rejoin_after_error, consumer errors, stop (consumers first, then leave). TLC checks exhaustively within a depth bound that a join request goes out only when no consumer of the previous generation is left, consumers are started only from a sync answer with the current generation/member id and from the committed position, eviction (illegal generation, unknown member, timeout) stops the consumers in the same event, one join/sync exchange at a time, heartbeats only while stable, nothing but the leave request after stop. An edge cover of the state graph, TLC -simulate behaviours and seeded random schedules are executed on the real ConsumerGroup over a scripted client and scripted partition consumers, and TLC re-validates every recorded step.",
+   text="Group.tla models one group member (afkak's Coordinator / ConsumerGroup): coordinator lookup, topic metadata load, graceful shutdown of the previous generation's consumers (failing through the Deferred or, in a second configuration, by raising from shutdown()), join, the leader's partition lookup, sync, start of the assigned consumers with generation and member id, heartbeat looper, delayed rejoins, the error table of rejoin_after_error, consumer errors, stop (consumers first, then leave). TLC checks exhaustively within a depth bound that a join request goes out only when no consumer of the previous generation is left, consumers are started only from a sync answer with the current generation/member id and from the committed position, eviction (illegal generation, unknown member, timeout) stops the consumers in the same event, one join/sync exchange at a time, heartbeats only while stable, nothing but the leave request after stop. An edge cover of the state graph, TLC -simulate behaviours and seeded random schedules are executed on the real ConsumerGroup over a scripted client and scripted partition consumers, and TLC re-validates every recorded step.",
    ref="DESIGN.md 0.9, 6.7, 7 (C16)",
    note="Trusted: TLC. The client and the partition consumers are the member's environment in this family (scripted): that commits carry the generation and member id is checked at the consumer's constructor arguments; the Consumer's own commit/stop contract is C03/C13's subject. Other members exist only through the coordinator's answers. A member is not restarted after stop. End to end: two real members (real KafkaClients, real Consumers) on the simulated cluster with a simulated group coordinator that holds joins until the scheduler completes the rebalance; after every scheduled event TLC evaluates GroupFence.tla on the recorded snapshot (consumer identity = member's generation/id, exclusivity within a generation, assignment, join only without consumers, heartbeat and commit identity, committed = processed after a successful graceful shutdown)."),
  "C17": dict(
